@@ -4,3 +4,4 @@ import Properties.C07
 #print axioms Hive.C07.concrete_traverse
 #print axioms Hive.C07.pickup_at_origin
 #print axioms Hive.C07.dropoff_at_destination
+#print axioms Hive.C07.trip_starts_at_origin
